@@ -238,6 +238,15 @@ class BacktrackSolver(Solver):
             )
             if is_empty(self.shr_domains_stack, self.stacks_top, self.problem.dom_indices_arr, variable_idx):
                 break  # no better value is left in the domain
+        # the search is over: a later call on this solver starts from the problem, not from the last failed state
+        reset(
+            self.problem,
+            self.shr_domains_stack,
+            self.not_entailed_propagators_stack,
+            self.dom_update_stack,
+            self.stacks_top,
+            self.triggered_propagators,
+        )
         return best_solution
 
     def solve(self) -> Iterator[NDArray]:
@@ -290,6 +299,15 @@ class BacktrackSolver(Solver):
                 self.problem.triggers,
             ):
                 break
+        # the search is over: a later call on this solver starts from the problem, not from the last failed state
+        reset(
+            self.problem,
+            self.shr_domains_stack,
+            self.not_entailed_propagators_stack,
+            self.dom_update_stack,
+            self.stacks_top,
+            self.triggered_propagators,
+        )
 
     def minimize_and_queue(self, variable_idx: int, processor_idx: int, solution_queue: Queue) -> None:
         """
